@@ -340,11 +340,15 @@ func runProperty(repo, verif, prop, tier, only string, seed uint64, nj int, skip
 		for _, fn := range jr.lemma.Functions {
 			found := false
 			for _, f := range jr.res.Functions {
-				if strings.HasSuffix(f, fn) {
+				short := f
+				for _, pre := range []string{"github.com/ulikunitz/xz/lzma.", "github.com/ulikunitz/xz/internal/hash.", "github.com/ulikunitz/xz/cmd/gxz.", "github.com/ulikunitz/xz."} {
+					short = strings.Replace(short, pre, "", 1)
+				}
+				if strings.HasSuffix(f, fn) || strings.HasSuffix(short, fn) {
 					found = true
 				}
 			}
-			if !found && len(jr.lemma.Harnesses) == 1 {
+			if !found && len(jr.lemma.Harnesses) == 1 && len(jr.res.Inconclusive) == 0 {
 				exit = max(exit, 3)
 				outLines = append(outLines, fmt.Sprintf("VACUOUS property=%s lemma=%s function %s was never executed", prop, jr.lemma.Name, fn))
 			}
